@@ -276,7 +276,7 @@ def check(model, rep, tier):
         f = funcs.get(MC + w)
         if f is None:
             continue
-        ok = f"self.to_dataframe().write_{w[3:]}(" in norm_src(f.node)
+        ok = Matcher(f).has(f"self.to_dataframe().write_{w[3:]}(...)")
         rep.instance("S10", f.loc())
         rep.ob("S10", f.anchor, f"{w} writes self.to_dataframe()", ok, "", node=f.node, fn=f, clause="layout", stmt=f"def {w} funnel")
     # suffix dispatch
@@ -288,13 +288,22 @@ def check(model, rep, tier):
                 if isinstance(n, ast.Compare) and "suffix" in norm_src(n.left) and isinstance(n.ops[0], ast.In):
                     out.append(tuple(_strlist(n.comparators[0]) or []))
             return out
-        s1, s2 = suffixes(tf), suffixes(ff)
+        # dispatch tables by representative evaluation (sa/domains/consts.py): which writer / reader is reached for which value of `<path>.suffix`
+        from ..domains.consts import dispatch_table
+        cands = sorted({c.value for fn_ in (tf, ff) for c in ast.walk(fn_.node) if isinstance(c, ast.Constant) and isinstance(c.value, str) and c.value.startswith(".")}
+                       | {".pq", ".parquet", ".csv", ".txt", ""})
+        tw = dispatch_table(model, tf, "suffix", cands, {"to_parquet", "to_csv"})
+        tr = dispatch_table(model, ff, "suffix", cands, {"from_parquet", "from_csv"})
+        s1 = sorted(v for v, c in tw.items() if c == ["to_parquet"])
+        s2 = sorted(v for v, c in tr.items() if c == ["from_parquet"])
+        rest_ok = all(c == ["to_csv"] for v, c in tw.items() if v not in s1) and all(c == ["from_csv"] for v, c in tr.items() if v not in s2)
         rep.instance("S10", tf.loc())
-        ok = len(s1) == 1 and s1 == s2 and set(s1[0]) == {".pq", ".parquet"}
-        rep.ob("S10", tf.anchor, "to_file and from_file choose Parquet for the same suffix set and CSV otherwise", ok, f"writer {s1}, reader {s2}", node=tf.node,
+        ok = s1 == s2 == [".parquet", ".pq"] and rest_ok
+        rep.ob("S10", tf.anchor, "to_file and from_file choose Parquet for the same suffix set and CSV otherwise", ok, f"writer {tw}, reader {tr}"[:300], node=tf.node,
                fn=tf, clause="layout", stmt="suffix dispatch")
-        okw = "return self.to_parquet(save_path)" in norm_src(tf.node) and "return self.to_csv(save_path)" in norm_src(tf.node)
-        okr = "return cls.from_parquet(path, pos_cols, rot_cols)" in norm_src(ff.node) and "return cls.from_csv(path, pos_cols, rot_cols)" in norm_src(ff.node)
+        MT_, MF_ = Matcher(tf), Matcher(ff)
+        okw = MT_.has("return self.to_parquet(save_path)") and MT_.has("return self.to_csv(save_path)")
+        okr = MF_.has("return cls.from_parquet(path, pos_cols, rot_cols)") and MF_.has("return cls.from_csv(path, pos_cols, rot_cols)")
         rep.ob("S10", ff.anchor, "each suffix is read by the reader of the format it was written in", okw and okr, f"writer ok {okw}, reader ok {okr}", node=ff.node,
                fn=ff, clause="layout", stmt="suffix dispatch targets")
     rep.floor("S10", 10, "(I/O table sites)")
